@@ -46,6 +46,16 @@ CHECKS = {
             "Trusted: vlib/m_cond.py. Points where the manual is silent (quantifier 0, empty iteration sets under "
             "all/none, ordering of bytes >= 0x80, float equality within 1e-3) are not judged and counted.",
             "DESIGN.md section 2, C04"),
+    "C05": ("exploration",
+            "differential oracle between executions of the real engine (runtime monitoring under ASan/UBSan/LSan)",
+            "For generated rule pools whose strings collide in atoms/prefixes/suffixes, every rule's verdict and "
+            "complete match lists in the full compilation are compared with the same rule compiled alone with its "
+            "dependencies, in a permuted order, with the namespace text cut into several add-source calls and nested "
+            "includes, and with further rules added; pools of several hundred rules per namespace stress the shared "
+            "automaton tables.",
+            "Trusted: the harness's recording of verdicts and match lists; the generator's notion of 'references' and "
+            "of global rules (side condition of the property).",
+            "DESIGN.md section 2, C05"),
 }
 
 NOT_YET = "check not built yet in this round (planned in DESIGN.md section 2); nothing is claimed for it"
